@@ -120,24 +120,31 @@ func (c *Ctx) ListerRules(prop string) {
 	}
 	// clauses on the append
 	var regexVal ssa.Value
+	isNameOfS := func(v ssa.Value, obj ssa.Value, sub Subst) bool {
+		call, ok := an.StripConv(sub.Res(an.StripConv(v))).(*ssa.Call)
+		if !ok || !call.Call.IsInvoke() || call.Call.Method.Name() != "Name" {
+			return false
+		}
+		return sub.Res(call.Call.Value) == obj
+	}
 	clauses := []struct {
 		name string
-		acc  func(a *an.Atom) bool
+		acc  AtomPred
 	}{
-		{"access check succeeded for this wallet/account", func(a *an.Atom) bool {
+		{"access check succeeded for this wallet/account", func(a *an.Atom, sub Subst) bool {
 			if a == nil || a.Op != "==" {
 				return false
 			}
 			for _, side := range [][2]ssa.Value{{a.LV, a.RV}, {a.RV, a.LV}} {
-				call, ok := side[0].(*ssa.Call)
+				call, ok := sub.Res(side[0]).(*ssa.Call)
 				if !ok || !an.IsConstInt(side[1], succ) || !auth[call.Call.StaticCallee()] {
 					continue
 				}
 				// name argument built from wallet.Name() and this account's Name()
 				for _, arg := range call.Call.Args {
-					if sp, ok := arg.(*ssa.Call); ok && sp.Call.StaticCallee() != nil && sp.Call.StaticCallee().String() == "fmt.Sprintf" {
+					if sp, ok := sub.Res(arg).(*ssa.Call); ok && sp.Call.StaticCallee() != nil && sp.Call.StaticCallee().String() == "fmt.Sprintf" {
 						vs := varargValues(sp.Call.Args[1])
-						if len(vs) == 2 && isNameOf(vs[0], walletVal) && isNameOf(vs[1], acct) {
+						if len(vs) == 2 && isNameOfS(vs[0], walletVal, sub) && isNameOfS(vs[1], acct, sub) {
 							return true
 						}
 					}
@@ -145,12 +152,12 @@ func (c *Ctx) ListerRules(prop string) {
 			}
 			return false
 		}},
-		{"path filter matches this account (or no filter)", func(a *an.Atom) bool {
+		{"path filter matches this account (or no filter)", func(a *an.Atom, sub Subst) bool {
 			if a == nil {
 				return false
 			}
 			if a.Op == "true" {
-				if call, ok := isCallToName(a.LV, "(*regexp.Regexp).MatchString"); ok && isNameOf(call.Call.Args[1], acct) {
+				if call, ok := isCallToName(sub.Res(a.LV), "(*regexp.Regexp).MatchString"); ok && isNameOfS(call.Call.Args[1], acct, sub) {
 					regexVal = call.Call.Args[0]
 					return true
 				}
@@ -167,7 +174,7 @@ func (c *Ctx) ListerRules(prop string) {
 			}
 			return false
 		}},
-		{"rules approved this account", func(a *an.Atom) bool {
+		{"rules approved this account", func(a *an.Atom, sub Subst) bool {
 			if a == nil || a.Op != "==" {
 				return false
 			}
@@ -175,7 +182,7 @@ func (c *Ctx) ListerRules(prop string) {
 				if !an.IsConstInt(side[1], appr) {
 					continue
 				}
-				root, idx, ok := elemLoad(side[0])
+				root, idx, ok := elemLoad(sub.Res(side[0]))
 				if !ok || !an.IsConstInt(idx, 0) {
 					continue
 				}
@@ -190,7 +197,7 @@ func (c *Ctx) ListerRules(prop string) {
 	for _, cl := range clauses {
 		cl := cl
 		x, path := an.Cut(an.CutQuery{From: body, Target: func(i ssa.Instruction) bool { return i == ssa.Instruction(app) },
-			AcceptEdge: func(b *ssa.BasicBlock, i int, a *an.Atom) bool { return cl.acc(a) }})
+			AcceptEdge: c.WithSummaries(cl.acc)})
 		if x != nil {
 			c.R.Fail(rule1, Fn(F)+":"+cl.name, c.Pos(app), "an account can be listed without ["+cl.name+"]", "listed only if: "+cl.name, an.PathString(c.Pos, path))
 		} else {
@@ -199,27 +206,27 @@ func (c *Ctx) ListerRules(prop string) {
 	}
 	_ = regexVal
 	// ---- O2 all-permitted: an iteration reaches the next one without the append only through an allowed skip edge
-	allowedSkip := func(a *an.Atom) bool {
+	allowedSkip := func(a *an.Atom, sub Subst) bool {
 		if a == nil {
 			return false
 		}
 		switch a.Op {
 		case "false":
-			if call, ok := isCallToName(a.LV, "(*regexp.Regexp).MatchString"); ok && isNameOf(call.Call.Args[1], acct) {
+			if call, ok := isCallToName(sub.Res(a.LV), "(*regexp.Regexp).MatchString"); ok && isNameOfS(call.Call.Args[1], acct, sub) {
 				return true // filter mismatch
 			}
-			if ex, ok := a.LV.(*ssa.Extract); ok && ex.Index == 1 {
-				if ta, ok := ex.Tuple.(*ssa.TypeAssert); ok && namedIs(ta.AssertedType, pkgWTypes, "AccountPublicKeyProvider") && ta.X == acct {
+			if ex, ok := sub.Res(a.LV).(*ssa.Extract); ok && ex.Index == 1 {
+				if ta, ok := ex.Tuple.(*ssa.TypeAssert); ok && namedIs(ta.AssertedType, pkgWTypes, "AccountPublicKeyProvider") && sub.Res(ta.X) == acct {
 					return true // no public key
 				}
 			}
 		case "!=":
 			for _, side := range [][2]ssa.Value{{a.LV, a.RV}, {a.RV, a.LV}} {
-				if call, ok := side[0].(*ssa.Call); ok && an.IsConstInt(side[1], succ) && auth[call.Call.StaticCallee()] {
+				if call, ok := sub.Res(side[0]).(*ssa.Call); ok && an.IsConstInt(side[1], succ) && auth[call.Call.StaticCallee()] {
 					return true // access refused
 				}
 				if an.IsConstInt(side[1], appr) {
-					if root, _, ok := elemLoad(side[0]); ok {
+					if root, _, ok := elemLoad(sub.Res(side[0])); ok {
 						if call, ok := root.(*ssa.Call); ok && call.Call.IsInvoke() && call.Call.Method.Name() == "RunRules" {
 							return true // rules did not approve
 						}
@@ -231,7 +238,7 @@ func (c *Ctx) ListerRules(prop string) {
 	}
 	hdr := accLoop.Header
 	x, path := an.Cut(an.CutQuery{From: body, Target: func(i ssa.Instruction) bool { return i == hdr.Instrs[0] },
-		AcceptEdge:  func(b *ssa.BasicBlock, i int, a *an.Atom) bool { return allowedSkip(a) },
+		AcceptEdge:  c.WithSummaries(allowedSkip),
 		AcceptInstr: func(i ssa.Instruction) bool { return i == ssa.Instruction(app) }})
 	if x != nil {
 		c.R.Fail(rule2, Fn(F)+":skip", c.Pos(accLoop.Next), "an account the client may access can be left out of the listing for a reason other than {filter mismatch, access refused, no public key, rules not approved}", "every permitted, matching account is appended", an.PathString(c.Pos, path))
